@@ -102,22 +102,27 @@ def cacheDescribeConfig (w : World) (s : BState) (o : Obj) : Res :=
       calls := [⟨o, "describe_configuration"⟩] }
   else Res.ok { s with configDescCache := aset s.configDescCache o [] }
 
+/-- first half of `_ensure_cached`: `_cache_describe` / `_cache_describe_collect` (with their
+    `check_supports(obj, Readable)` / `check_supports(obj, Collectable)`) -/
+def cacheDescribe (w : World) (s : BState) (o : Obj) (collect : Bool) : Res :=
+  if !collect && !ahas s.describeCache o && (w.spec o).isDet then Res.fail s .assertionError
+  else if collect && !ahas s.describeCollectCache o && !(w.spec o).isDet then Res.fail s .assertionError
+  else if !collect && !ahas s.describeCache o then
+    { st := { s with describeCache := aset s.describeCache o (w.spec o).keys }, calls := [⟨o, "describe"⟩] }
+  else if collect && !ahas s.describeCollectCache o then
+    { st := { s with describeCollectCache := aset s.describeCollectCache o (w.spec o).keys }
+      calls := [⟨o, "describe_collect"⟩] }
+  else Res.ok s
+
+/-- second half of `_ensure_cached`: the configuration caches, filled once per object -/
+def cacheConfig (w : World) (s : BState) (o : Obj) : Res :=
+  if !ahas s.configDescCache o then
+    (cacheDescribeConfig w s o).andThen fun s => cacheReadConfig w s o
+  else Res.ok s
+
 /-- `_ensure_cached(obj, collect)` -/
 def ensureCached (w : World) (s : BState) (o : Obj) (collect : Bool) : Res :=
-  let r1 : Res :=
-    -- check_supports(obj, Readable) / check_supports(obj, Collectable)
-    if !collect && !ahas s.describeCache o && (w.spec o).isDet then Res.fail s .assertionError
-    else if collect && !ahas s.describeCollectCache o && !(w.spec o).isDet then Res.fail s .assertionError
-    else if !collect && !ahas s.describeCache o then
-      { st := { s with describeCache := aset s.describeCache o (w.spec o).keys }, calls := [⟨o, "describe"⟩] }
-    else if collect && !ahas s.describeCollectCache o then
-      { st := { s with describeCollectCache := aset s.describeCollectCache o (w.spec o).keys }
-        calls := [⟨o, "describe_collect"⟩] }
-    else Res.ok s
-  r1.andThen fun s =>
-    if !ahas s.configDescCache o then
-      (cacheDescribeConfig w s o).andThen fun s => cacheReadConfig w s o
-    else Res.ok s
+  (cacheDescribe w s o collect).andThen fun s => cacheConfig w s o
 
 /-- external ("STREAM:") keys among `keys`: exactly the keys that belong to a detector -/
 def externalKeys (w : World) (objsDks : List (Obj × List Key)) : List Key :=
